@@ -926,6 +926,7 @@ def floors(tier):
             f[f"compared-sparse:{n}"] = int(0.09 * rounds)  # a third of the rounds are sparse / large; some seeds are refused
         if n in SKIP_SAMPLERS:
             f[f"sparse-nonempty:{n}"] = int(0.1 * rounds)
+        f[f"compared-same-objects:{n}"] = int(0.15 * rounds)
         if n in OPTIONS:
             f[f"compared-options:{n}"] = int(0.09 * rounds)
         if n in LAYOUTS_WITH_PASSTHROUGH:
@@ -938,6 +939,7 @@ def floors(tier):
     if c16.PROBED_GEOMETRIC:
         for k in ("p=0", "p=1", "1e-12<=p<1e-4", "1e-4<=p<1e-2", "1e-2<=p<1", "numpy-scalar", "->inf"):
             f[f"geometric:{k}"] = 20  # observed 45..120 over seeds 0..15 at the quick tier
+    f["argument-mutation-probes"] = 20 * len(PROBED)
     f["at-most-2-unprobed"] = 1
     for k in ALPHABET:
         f[f"schedule-step:{k}"] = len(PROBED)
@@ -981,7 +983,23 @@ def run_case(mon, kind, idx, rng):
         # the case starts from global generator states fixed by the case rng (replayable)
         random.seed(rng.randrange(2**32))
         np.random.seed(rng.randrange(2**32))
-        desc, build = rec(rng)
+        desc, fresh_build = rec(rng)
+        # half of the rounds hand the very same argument objects to both executions and to the interleaved calls of the same callable
+        # (only arguments documented as modified in place are rebuilt); the other half rebuilds every argument from plain data
+        same_objects = rnd % 2 == 1
+        if same_objects:
+            shared = fresh_build()
+            inplace = [pos for (f, pos) in c16.DOCUMENTED_IN_PLACE if f == name]
+
+            def build():
+                args, kw = shared
+                if inplace:
+                    fa, fk = fresh_build()
+                    args = tuple(fa[i] if i in inplace else a for i, a in enumerate(args))
+                    kw = {k: (fk[k] if k in inplace else v) for k, v in kw.items()}
+                return args, kw
+        else:
+            build = fresh_build
         seed, seed_class = pick_seed(rng)
         # a seed that is not a plain int below 2**32 may be refused by random.seed / numpy.random.seed / networkx (TypeError, ValueError):
         # then both executions have to refuse it
@@ -997,23 +1015,28 @@ def run_case(mon, kind, idx, rng):
             schedule = make_schedule(rng, q, build)
         mon.note(f"fn:{name}")
         mon.note(f"regime:{regime}")
+        mon.note(f"arguments:{'same-objects' if same_objects else 'rebuilt'}")
         mon.note(f"seed-class:{seed_class}")
         mon.note(f"schedule:{sched_key(schedule)}")
         mon.note(f"history:{sched_key(history)}")
         for s in schedule:
             mon.note(f"schedule-step:{s[0]}")
         witness = (
-            f"{q}({desc}, seed={seed!r})\nhistory before the first call: {show(history)}\n"
+            f"{q}({desc}, seed={seed!r})  [{'the same argument objects in every call' if same_objects else 'arguments rebuilt for every call'}]\nhistory before the first call: {show(history)}\n"
             f"schedule between the two calls: {show(schedule)}"
         )
         run_schedule(mon, history)
         outs = []
         for i in range(2):
             args, kw = build()
+            before = [c16.fingerprint(x) for x in args] + [c16.fingerprint(x) for x in kw.values()] if same_objects else None
             try:
                 outs.append(("returned", fn(*args, **kw, seed=seed)))
             except refusals as exc:
                 outs.append(("raised", type(exc).__name__))
+            if before is not None:
+                mon.note("argument-mutation-probes")
+                c16.note_modified(mon, name, before, args, kw)
             if i == 0:
                 run_schedule(mon, schedule)
         mon.ev()
@@ -1025,6 +1048,8 @@ def run_case(mon, kind, idx, rng):
                 mon.note(f"raised-both:{name}:{r1}")
             return
         mon.note(f"compared:{name}" if kind != "symmetric" else "compared-symmetric-spectra")
+        if same_objects:
+            mon.note(f"compared-same-objects:{name}")
         mon.note(f"compared-seed-class:{seed_class}")
         if regime == "options":
             mon.note(f"compared-options:{name}")
@@ -1038,7 +1063,16 @@ def run_case(mon, kind, idx, rng):
                 mon.note(f"sparse-nonempty:{name}")
         d = differ(r1, r2)
         if d:
-            mon.fail(f"{name}|seed|output-differs-on-repeat", f"two calls with equal arguments and seed={seed} differ; {d}", witness)
+            trig = "seed"
+            if same_objects:  # is the reuse of the argument objects the trigger?  two more executions on rebuilt arguments decide
+                try:
+                    (a1, k1_), (a2, k2_) = fresh_build(), fresh_build()
+                    if differ(fn(*a1, **k1_, seed=seed), fn(*a2, **k2_, seed=seed)) is None:
+                        trig = "seed,same-argument-objects"
+                except Exception as exc:
+                    if type(exc).__name__ == "Watchdog":
+                        raise
+            mon.fail(f"{name}|{trig}|output-differs-on-repeat", f"two calls with {'the same argument objects' if same_objects else 'equal arguments'} and seed={seed} differ; {d}", witness)
             return
         if nonempty(r1):
             mon.nontrivial((q, desc, seed, show(history), show(schedule)))
